@@ -52,6 +52,9 @@ func (g *commonGen) weight(kind string) int {
 // enabledKinds lists the step kinds the configuration supports.
 func enabledKinds(c *Config) []string {
 	ks := []string{"advance", "probe", "drop_session", "restart"}
+	if c.SecondSite {
+		ks = append(ks, "second_site")
+	}
 	has := c.hasModule
 	if has("auth") {
 		ks = append(ks, "login", "login_get")
@@ -412,6 +415,8 @@ func (g *commonGen) fill(w *World, kind string, b int) Step {
 		g.redir(&st)
 	case "otp_add", "otp_clear", "recovery_regen", "totp_setup", "totp_setup_get", "sms_setup_get":
 		st.A = sessAcct(w, b)
+	case "second_site":
+		st.Str = map[string]string{"what": []string{"register", "login"}[g.r.Intn(2)]}
 	case "logout":
 		if g.r.Chance(1, 6) {
 			st.Str = map[string]string{"method": logoutMethods[g.r.Intn(len(logoutMethods))]}
